@@ -234,8 +234,8 @@ func (s *Stream) ExecuteFlow(
 		return nil
 	}
 
-	s.apiStreams = stream.NewStream().
-		WithProcessorExecutionTimeMeasurement(s.metricsData.procMetricsData.measureProcExecutionTime)
+	// s.apiStreams is set up once in newStream(): the executor is stateless, and re-assigning
+	// this shared field for every transaction raced with the transactions already running
 
 	var err error
 	if apiStream.GetType().IsRequestType() {
